@@ -176,6 +176,9 @@ def m_vec_push(E, st, fr, bi, callee, args, dest_ty):
 
 def m_from_elem(E, st, fr, bi, callee, args, dest_ty):
     # vec![e; n]
+    n = st.const(args[1]) if type(args[1]) is I else None
+    if n is not None and 0 < n <= 64:
+        return ret1(Sq(args[0], args[1], {i: args[0] for i in range(n)}, None), st)
     return ret1(Sq(args[0], args[1], None, None), st)
 
 
@@ -540,6 +543,18 @@ def it_next(E, st, fr, bi, it):
             d2["b"] = nb
             outs.append((item2, Md("iter", d2), s3))
         return outs
+    if k == "arith":
+        n = st.const(it.d["n"])
+        if n is None:
+            raise Unsupported("symbolic arithmetic iterator")
+        if n == 0:
+            return [(None, it, st)]
+        cur = it.d["cur"]
+        c = st.const(cur)
+        d = dict(it.d)
+        d["n"] = usize(E, st, n - 1)
+        d["cur"] = E.ctx.const_int(st, c + it.d["step"], cur.ty) if n > 1 else cur
+        return [(cur, Md("iter", d), st)]
     if k == "chunks":
         inner = it.d["inner"]
         pos, end = inner.d["pos"], inner.d["end"]
@@ -635,6 +650,8 @@ def it_len(E, st, it):
         z = E.ctx.mk_int(st, -((-lo) // sz), (-((-hi) // sz)) if hi != INF else ISIZE_MAX, rem.ty)
         st.prov[z.vid] = ("ceildiv", (rem.vid,), sz)
         return z
+    if k == "arith":
+        return it.d["n"]
     if k in ("slice", "range", "range_rev", "bits"):
         pos, end = it.d["pos"], it.d["end"]
         r = E.decide_cmp(st, "Le", pos, end)
@@ -817,6 +834,9 @@ def m_iter_adapt(kind):
                 d["end"] = int_min(E, st, end, lim)
                 return ret1(Md("iter", d), st)
             return ret1(Md("iter", {"k": "take", "inner": it, "n": args[1]}), st)
+        if kind == "filter":
+            ftys = fn_generic_types(callee)
+            return ret1(Md("iter", {"k": "filter", "inner": it, "f": args[1], "fty": ftys[-1]}), st)
         if kind == "chunks":
             if it.d["k"] not in ("bits", "slice", "range"):
                 raise Unsupported("chunks over " + it.d["k"])
@@ -828,7 +848,23 @@ def m_iter_adapt(kind):
         if kind == "rev":
             if it.d["k"] == "range":
                 return ret1(Md("iter", {"k": "range_rev", "pos": it.d["pos"], "end": it.d["end"]}), st)
+            if it.d["k"] == "arith":
+                cur, n, step = it.d["cur"], it.d["n"], it.d["step"]
+                c, nn = st.const(cur), st.const(n)
+                if c is None or nn is None:
+                    raise Unsupported("rev of symbolic step_by")
+                last = c + (nn - 1) * step if nn > 0 else c
+                return ret1(Md("iter", {"k": "arith", "cur": E.ctx.const_int(st, last, cur.ty), "n": n, "step": -step}), st)
             raise Unsupported(f"rev of {it.d['k']}")
+        if kind == "step_by":
+            if it.d["k"] != "range":
+                raise Unsupported("step_by over " + it.d["k"])
+            stp = st.const(args[1])
+            lo_, hi_ = st.const(it.d["pos"]), st.const(it.d["end"])
+            if stp is None or stp <= 0 or lo_ is None or hi_ is None:
+                raise Unsupported("symbolic step_by")
+            cnt = max(0, -((lo_ - hi_) // stp))
+            return ret1(Md("iter", {"k": "arith", "cur": it.d["pos"], "n": usize(E, st, cnt), "step": stp}), st)
         raise Unsupported(kind)
     f.__name__ = f"m_iter_{kind}"
     return f
@@ -969,6 +1005,33 @@ def m_iter_sum(E, st, fr, bi, callee, args, dest_ty):
 
 def m_iter_count(E, st, fr, bi, callee, args, dest_ty):
     it = iter_arg(E, st, args[0])
+    if it.d["k"] == "filter":
+        inner = it.d["inner"]
+        n = it_len(E, st, inner)
+        c = st.const(n)
+        if c is None or c > 64:
+            return ret1(E.ctx.mk_int(st, 0, st.hi(n), E.ctx.usize_ty()), st)
+        lo = hi = 0
+        cur, s = inner, st
+        with pinned(E.ctx, it, n):
+            for _ in range(c):
+                with pinned(E.ctx, cur):
+                    outs = [o for o in it_next(E, s, fr, bi, cur) if o[0] is not None]
+                if len(outs) != 1:
+                    raise Unsupported("filter.count over a non-deterministic iterator")
+                item, cur, s = outs[0]
+                key = ("h", "filter_item", fr.id, bi)
+                s.store[key] = item
+                with pinned(E.ctx, cur):
+                    rs = call_closure(E, s, fr, bi, it.d["f"], it.d["fty"], [Pt(key)])
+                if len(rs) != 1 or type(rs[0][0]) is not I:
+                    raise Unsupported("filter predicate")
+                r, s = rs[0]
+                E.ctx.emit("filter_pred", frame=fr, bb=bi, item=item, result=r, st=s)
+                rl, rh = s.itv[r.vid]
+                lo += rl
+                hi += rh
+        return ret1(E.ctx.mk_int(s, lo, hi, E.ctx.usize_ty()), s)
     return ret1(it_len(E, st, it), st)
 
 
@@ -1416,7 +1479,7 @@ def build(ctx):
     # iterators
     A(r"^(core|std)::iter::range::<impl std::iter::Iterator for std::ops::Range<.*>>::next$", m_iter_next)
     A(r"^(core|std)::iter::range::<impl std::iter::Iterator for std::ops::RangeInclusive<.*>>::next$", m_range_inclusive_next)
-    A(r"^<std::(slice|vec|iter)::.* as std::iter::Iterator>::next$", m_iter_next)
+    A(r"^<std::(slice|vec|iter|array)::.* as std::iter::Iterator>::next$", m_iter_next)
     A(r"^<bit_vec::Iter<.*> as std::iter::Iterator>::next$", m_iter_next)
     A(r"^<.* as itertools::Itertools>::chunks$", m_iter_adapt("chunks"))
     A(r"^itertools::Itertools::chunks$", m_iter_adapt("chunks"))
@@ -1424,7 +1487,8 @@ def build(ctx):
     A(r"^<itertools::(Chunks|Chunk)<.*> as std::iter::Iterator>::next$", m_iter_next)
     A(r"^<.* as std::iter::Iterator>::(any|all)::<", m_iter_anyall)
     A(r"^std::iter::Iterator::(any|all)::<", m_iter_anyall)
-    for k in ("map", "copied", "cloned", "enumerate", "zip", "skip", "take", "chain", "rev"):
+    A(r"^(core|std)::array::iter::<impl std::iter::IntoIterator for \[.*\]>::into_iter$", m_vec_into_iter)
+    for k in ("map", "copied", "cloned", "enumerate", "zip", "skip", "take", "chain", "rev", "filter", "step_by"):
         A(r"^<.* as std::iter::Iterator>::" + k + r"(::<.*>)?$", m_iter_adapt(k))
         A(r"^std::iter::Iterator::" + k + r"(::<.*>)?$", m_iter_adapt(k))
     A(r"^<.* as std::iter::Iterator>::sum::<", m_iter_sum)
